@@ -200,7 +200,11 @@ def _sig(x):
     v = x[1]
     if isinstance(v, Obj):
         return 'return <%s>' % v.label
-    return 'return %r' % (v,)
+    try:
+        return 'return %r' % (v,)
+    except Exception as e:      # a library object whose repr() fails
+        return 'return <%s whose repr() raises %s>' % (
+            type(v).__name__, type(e).__name__)
 
 
 def same_outcome(got, want, value_eq=None):
